@@ -19,7 +19,53 @@ SDB_ASSUMPTIONS = COMMON_ASSUMPTIONS + [
     'Package-level state of all packages is initialised once per engine worker and kept across paths.',
 ]
 
+H = P + 'zzverif/hsdb.'
+
+SDB_BOUNDS = ['StateDB harnesses: 2 accounts (20 symbolic address bytes each, distinct) unless stated, account kinds as listed per harness', 'amounts and balances in [0, 2^128), supply = sum of harness balances + symbolic rest in [0, 2^130)',
+              'storage: slots {1,2} with symbolic one-byte values; code: two fixed byte strings', 'nonces < 2^62']
+
 CHECKS = {
+    'C01': {
+        'pkgs': ['./zzverif/hsdb'],
+        'harnesses': [
+            {'fn': H + 'H_C01_1_CommitOrder', 'over': {'max-decisions': 3000, 'max-paths': 60000}, 'must_reach': ['two-destroyed-accounts-with-balances']},
+            {'fn': H + 'H_C01_2_Clock', 'must_reach': ['vesting-destroy-refused']},
+        ],
+        'level_text': 'Self-composition under environment non-determinism, decided by bounded symbolic execution of the real StateDB commit/destroy code: the same history is executed twice with independently chosen Go-map iteration orders (every permutation explored) and independent symbolic wall-clock values, and z3 decides equality of all stores and of the emitted event sequence for every symbolic balance/kind/end time in the bounds.',
+        'level_note': 'Only the determinism sources that /repo code itself introduces in the StateDB commit path (map iteration at commit, wall clock in the destroy guard) are decided; SDK modules, CometBFT, IAVL hashing and goroutine scheduling are outside. Trusted: gosym, solvers, store/account/bank models.',
+        'bounds': ['H_C01_1: 2-3 touched accounts at fixed distinct addresses, each {empty base account | base account with symbolic positive balances in 2 denominations | coins without auth account}, each {touched | self-destructed}; every permutation of every map ranged over during CommitMultiStore, chosen independently in the two executions',
+                   'H_C01_2: 1 account of 8 kinds (none, base, module, continuous/delayed/periodic/permanent-locked vesting, bare base vesting), symbolic end time and block time in [0, 2^40), 4 destroy routes, time.Now() fresh symbolic value per call in [1970, 2200]'] ,
+        'outside': ['determinism of SDK modules (bank, staking, distribution), CometBFT, IAVL', 'goroutine scheduling, node-local configuration', 'staking precompile validator choice, NewEVM block context, per-block bookkeeping (not yet encoded)', 'more than 3 accounts destroyed in one transaction'],
+        'assumptions': SDB_ASSUMPTIONS,
+    },
+    'C03': {
+        'pkgs': ['./zzverif/hsdb'],
+        'harnesses': [
+            {'fn': H + 'H_C03_1_Erase', 'over': {'max-paths': 60000}},
+            {'fn': H + 'H_C03_1a_EraseJournalPQ', 'over': {'max-paths': 60000}},
+            {'fn': H + 'H_C03_3_Keep', 'over': {'max-paths': 60000}},
+            {'fn': H + 'H_C03_1b_ErasePQ', 'over': {'max-paths': 400000}, 'thorough_only': True},
+            {'fn': H + 'H_C03_1c_EraseQQ', 'over': {'max-paths': 400000}, 'thorough_only': True},
+            {'fn': H + 'H_C03_2_Nesting', 'over': {'max-paths': 400000}, 'thorough_only': True},
+        ],
+        'level_text': 'Metamorphic self-composition on the real context-based StateDB (vm.NewStateDB over the real sdk.Context branching): "P; snapshot; Q; revert" is compared with "P" in two identical symbolic worlds, for 14 operation kinds incl. a keeper write through the current context (what a stateful precompile does); z3 decides equality of every StateDB getter, of all stores after commit and of the event sequence on every path.',
+        'level_note': 'The EVM interpreter and real call frames are not executed: frames are modelled as Snapshot/RevertToSnapshot brackets around StateDB operations, which is exactly the interface the interpreter uses. Staking/distribution effects are represented by a bank write through GetCurrentContext() (the revert mechanism, context branching, is the real one).',
+        'bounds': SDB_BOUNDS + ['quick: |P|=0,|Q|=1 over all 14 kinds with rich account a (code/storage optional); |P|=1,|Q|=1 over the 7 journal kinds; keep (no revert) with 1-2 extra snapshots',
+                                'thorough: |P|=1,|Q|=1 and |Q|=2 over all 14 kinds (plain accounts), two-level nesting incl. stale snapshot id'],
+        'outside': ['contract call trees executed by the EVM interpreter', 'effects inside SDK staking/distribution keepers', 'more than 2 operations per frame, more than 2 nesting levels'],
+        'assumptions': SDB_ASSUMPTIONS,
+    },
+    'C15': {
+        'pkgs': ['./zzverif/hsdb'],
+        'harnesses': [
+            {'fn': H + 'H_C15_1_DestroyGuard', 'must_reach': ['removed-account-holding-both-denoms', 'removed-expired-vesting-account']},
+        ],
+        'level_text': 'Bounded symbolic execution of the real DestroyAccount / CreateAccount / Suicide / CommitMultiStore / IsEmptyAccount code on one account of every kind with symbolic vesting end time, block time, nonce, balances in two denominations, code and storage: z3 decides on every path that an auth record disappears or is replaced only when the guard allows it, and that a removed account is removed completely and burns exactly what it held.',
+        'level_note': 'Oracle follows GetEndTime(): a PermanentLockedAccount reports end time 0 and is therefore not protected by the guard (noted in DESIGN.md, not asserted). Locked-coin arithmetic of linear vesting (LegacyDec division) is outside: continuous vesting accounts are instantiated cliff-shaped.',
+        'bounds': SDB_BOUNDS + ['1 account, 8 kinds, end time and block time in [0, 2^40)', '6 routes: DestroyAccount, CreateAccount, Suicide+commit, touch+commit, pay+commit, spend+commit'],
+        'outside': ['which addresses contract code can reach (EVM interpreter)', 'x/bank internals (model mirrors the SDK source)', 'linear in-between vesting amounts'],
+        'assumptions': SDB_ASSUMPTIONS,
+    },
     'C04': {
         'pkgs': ['./zzverif/hsdb'],
         'harnesses': [
